@@ -224,6 +224,25 @@ def evaluate(case):
             elif len(f) and ch.deviations and np.any(vals != 0) and np.array_equal(vals, first[1]) and \
                     any(a != b for (_, a), (_, b) in zip(s.log, [])):
                 pass
+        # two objects with the same basis produce identical waveforms -- also when the second object had already been
+        # evaluated with its own basis before it was given the first one's (history: evaluate, transplant, evaluate)
+        if first is not None and len(first[0].freqs):
+            for evaluate_first in (False, True):
+                o2 = _construct(cls, times, band, amp_arg if ampname != "rayleigh" else None, unique, rms_spec, rng.WeylSource(0.7171))
+                nev += 1
+                tt = (np.arange(-2, n + 3) + off) * DT
+                if evaluate_first:
+                    _ = np.array(o2.with_times(tt).values)
+                    _ = np.array(o2.values)
+                o2.freqs = np.array(first[0].freqs)
+                o2.amps = np.array(first[0].amps)
+                o2.phases = np.array(first[0].phases)
+                a = np.asarray(first[0].with_times(tt).values, dtype=float)
+                b = np.asarray(o2.with_times(tt).values, dtype=float)
+                if not np.array_equal(a, b):
+                    fail("same-basis", "an object given the basis of another one%s produces a different waveform (max diff %.3g)"
+                         % (" after having been evaluated once" if evaluate_first else "", float(np.max(np.abs(a - b)))), None,
+                         evaluated_before_transplant=evaluate_first)
         # independent objects differ (default stream vs. a shifted stream)
         if first is not None and len(first[0].freqs) and ampname == "rayleigh":
             o2 = _construct(cls, times, band, amp_arg, unique, rms_spec, rng.WeylSource(0.4242))
